@@ -85,6 +85,20 @@ func c32Menu() []bulkElem {
 
 const c32CoreMenu = 6
 
+// length-3 bulks repeated with a deadlock victim in the thorough tier: over the core menu
+// plus a transfer from a bounded source (balance read FOR UPDATE), a referenced and a
+// scripted transaction
+const c32FaultMenu3Thorough = 9
+
+// c32FaultOpts: the option sets whose bulks are repeated with a deadlock victim. Elements of
+// parallel bulks run on a free-running pool (no "first attempt of element i" to point at).
+func c32FaultOpts(r *ev.Run, o bulkOpts) bool {
+	if o.Parallel {
+		return false
+	}
+	return !o.Continue || r.Thorough()
+}
+
 type bulkOpts struct {
 	Atomic   bool `json:"atomic"`
 	Continue bool `json:"continueOnFailure"`
@@ -228,8 +242,10 @@ type soloStep struct {
 	After string // observation after this step
 }
 
-// soloRun applies the elements one by one as separate plain requests on a clone.
-func soloRun(ctx context.Context, start *pgsim.DB, elems []bulkElem) ([]soloStep, error) {
+// soloRun applies the elements one by one as separate plain requests on a clone. burn
+// (fault references only): sequence values drawn, by an unrelated session, just before
+// one of the requests (see burnSpec).
+func soloRun(ctx context.Context, start *pgsim.DB, elems []bulkElem, burn *burnSpec) ([]soloStep, error) {
 	pg := start.Clone()
 	w := world.Attach(pg)
 	defer w.Close()
@@ -238,7 +254,10 @@ func soloRun(ctx context.Context, start *pgsim.DB, elems []bulkElem) ([]soloStep
 		return nil, err
 	}
 	var steps []soloStep
-	for _, e := range elems {
+	for i, e := range elems {
+		if err := burn.apply(ctx, w, i); err != nil {
+			return nil, err
+		}
 		var st soloStep
 		if e.Solo.Kind == "invalid" {
 			st = soloStep{Class: "invalid"}
@@ -274,28 +293,41 @@ func soloRun(ctx context.Context, start *pgsim.DB, elems []bulkElem) ([]soloStep
 // each standalone write on a still-initializing (e.g. just imported) ledger re-runs the
 // state tracker's sequence resynchronisation, so ids burnt by a failed element are
 // handed out again, which cannot happen inside one transaction.
-func soloRunInTx(ctx context.Context, start *pgsim.DB, elems []bulkElem) ([]soloStep, error) {
+//
+// With commit set, the caller commits its transaction when every request succeeded; the
+// second result is then the observation of the ledger afterwards ("" otherwise).
+func soloRunInTx(ctx context.Context, start *pgsim.DB, elems []bulkElem, burn *burnSpec, commit bool) ([]soloStep, string, error) {
 	pg := start.Clone()
 	w := world.Attach(pg)
 	defer w.Close()
 	ctrl, err := w.Sys.GetLedgerController(ctx, "l1")
 	if err != nil {
-		return nil, err
+		return nil, "", err
 	}
 	txCtrl, _, err := ctrl.BeginTX(ctx, nil)
 	if err != nil {
-		return nil, fmt.Errorf("BeginTX: %w", err)
+		return nil, "", fmt.Errorf("BeginTX: %w", err)
 	}
-	defer func() { _ = txCtrl.Rollback(ctx) }()
+	done := false
+	defer func() {
+		if !done {
+			_ = txCtrl.Rollback(ctx)
+		}
+	}()
+	allOK := true
 	var steps []soloStep
-	for _, e := range elems {
+	for i, e := range elems {
+		if err := burn.apply(ctx, w, i); err != nil {
+			return nil, "", err
+		}
 		if e.Solo.Kind == "invalid" {
+			allOK = false
 			steps = append(steps, soloStep{Class: "invalid"})
 			continue
 		}
 		out := safeApply(ctx, txCtrl, e.Solo)
 		if out.Class == "ENGINE" {
-			return nil, fmt.Errorf("solo-in-tx %s: %v", e.Name, out.Err)
+			return nil, "", fmt.Errorf("solo-in-tx %s: %v", e.Name, out.Err)
 		}
 		st := soloStep{OK: out.Err == nil, Class: out.Class, Data: "null"}
 		if out.Err == nil {
@@ -305,10 +337,22 @@ func soloRunInTx(ctx context.Context, start *pgsim.DB, elems []bulkElem) ([]solo
 			if out.Tx != nil {
 				st.Data = normOf(*out.Tx)
 			}
+		} else {
+			allOK = false
 		}
 		steps = append(steps, st)
 	}
-	return steps, nil
+	final := ""
+	if commit && allOK {
+		done = true
+		if err := txCtrl.Commit(ctx); err != nil {
+			return nil, "", fmt.Errorf("solo-in-tx: commit: %w", err)
+		}
+		if final, err = observe(ctx, ctrl); err != nil {
+			return nil, "", err
+		}
+	}
+	return steps, final, nil
 }
 
 type c32 struct {
@@ -318,12 +362,17 @@ type c32 struct {
 	samples  *ev.Samples
 	bulks    atomic.Int64
 	nontriv  atomic.Int64
+	// fault dimension (one element is a deadlock victim)
+	faultRuns      atomic.Int64
+	faultPositions atomic.Int64
+	faultStmts     *counter
 }
 
 type bulkCase struct {
 	State string     `json:"startState"`
 	Elems []bulkElem `json:"elements"`
 	Opts  bulkOpts   `json:"options"`
+	Fault *faultSpec `json:"deadlock,omitempty"` // one element is a deadlock victim (c32_fault.go)
 }
 
 func (b bulkCase) body() string {
@@ -351,17 +400,44 @@ func (b bulkCase) replay() map[string]any {
 		rep["startStateHistory"] = c32InUseOps
 		rep["startStateNote"] = "history written on ledger `src`, exported with Controller.Export and imported into the fresh ledger `l1` with Controller.Import; the bulk is the first write after the import"
 	}
+	if b.Fault != nil {
+		rep["deadlock"] = b.Fault
+		rep["deadlockNote"] = "while the controller serves element `element`, its `driverCall`-th exec/query driver call (savepoint control statements not counted) is refused, once, with SQLSTATE 40P01 (deadlock detected)"
+	}
 	return rep
 }
 
 func (c *c32) viol(bc bulkCase, kind, format string, a ...any) {
-	c.r.Violation("C32:"+bc.Opts.mode()+":"+kind+":start="+bc.State,
-		fmt.Sprintf("start=%s bulk=%v options=%s: ", bc.State, bc.names(), bc.Opts)+fmt.Sprintf(format, a...), bc.replay())
+	mode, where := bc.Opts.mode(), ""
+	if f := bc.Fault; f != nil {
+		mode += "+deadlock"
+		where = fmt.Sprintf(" deadlock(40P01) at statement %d of element %d [%s]", f.At, f.Elem, stmtKind(f.SQL))
+	}
+	c.r.Violation("C32:"+mode+":"+kind+":start="+bc.State,
+		fmt.Sprintf("start=%s bulk=%v options=%s%s: ", bc.State, bc.names(), bc.Opts, where)+fmt.Sprintf(format, a...), bc.replay())
+}
+
+// c32Ref is what a bulk is judged against: "the same requests on their own".
+type c32Ref struct {
+	startObs string
+	solo     []soloStep // as separate requests (sequential bulks); After = the ledger after request i
+	soloTx   []soloStep // as separate calls inside one Controller.BeginTX transaction (atomic bulks)
+	// fault runs ---------------------------------------------------------------------
+	allApplied    string                 // atomic: the ledger after the caller of soloTx committed ("" = solo[n-1].After)
+	exact         bool                   // the reference accounts for the ids the deadlock victim's first attempt drew
+	seqsMustMatch map[pgsim.SeqKey]int64 // non-nil: exact only if the run leaves the sequences there
+}
+
+// bulkOut is what a checked bulk left behind (nil when it could not be judged further).
+type bulkOut struct {
+	perCall []int                  // exec/query driver calls per controller write call
+	seqs    map[pgsim.SeqKey]int64 // sequences after the bulk
 }
 
 // check runs one bulk with one option set on a clone and evaluates the oracle against
-// the solo run of the same elements.
-func (c *c32) check(ctx context.Context, start *pgsim.DB, startObs string, bc bulkCase, solo, soloTx []soloStep) {
+// the solo runs of the same elements. refFor is asked for the reference once the bulk has
+// run (a fault run only knows then which ids the victim's first attempt drew).
+func (c *c32) check(ctx context.Context, start *pgsim.DB, bc bulkCase, refFor func(drawn map[pgsim.SeqKey]int64) (*c32Ref, error)) *bulkOut {
 	pg := start.Clone()
 	if bc.Opts.Parallel {
 		pg.Mode = pgsim.ModeFree // real goroutines: lock waits park instead of being reported as self-deadlocks
@@ -371,7 +447,27 @@ func (c *c32) check(ctx context.Context, start *pgsim.DB, startObs string, bc bu
 	ctrl, err := w.Sys.GetLedgerController(ctx, "l1")
 	if err != nil {
 		c.r.EngineError("GetLedgerController: " + err.Error())
-		return
+		return nil
+	}
+	n := len(bc.Elems)
+	mode := bc.Opts.mode()
+	f := bc.Fault
+	var trk *elemTracker
+	if mode == "atomic" || mode == "sequential" {
+		// elements run one at a time: driver calls can be attributed to elements
+		trk = newElemTracker(pg)
+		if f != nil {
+			if f.Elem < 0 || f.Elem >= n || bc.Elems[f.Elem].Solo.Kind == "invalid" || f.At < 1 {
+				c.r.EngineError(fmt.Sprintf("bulk %v: no such fault position %+v", bc.names(), *f))
+				return nil
+			}
+			trk.fCall, trk.fAt = callOfElem(bc.Elems, f.Elem), f.At
+		}
+		w.Hook = trk.hook
+		ctrl = &trackedCtrl{Controller: ctrl, t: trk}
+	} else if f != nil {
+		c.r.EngineError("fault runs exist for sequential and atomic bulks only")
+		return nil
 	}
 	before := dump(pg)
 	type ret struct {
@@ -390,11 +486,43 @@ func (c *c32) check(ctx context.Context, start *pgsim.DB, startObs string, bc bu
 	case out = <-done:
 	case <-time.After(120 * time.Second):
 		c.r.EngineError(fmt.Sprintf("bulk %v %s did not return within 120s (pgsim/harness hang)", bc.names(), bc.Opts))
-		return
+		return nil
 	}
-	c.bulks.Add(1)
-	n := len(bc.Elems)
-	mode := bc.Opts.mode()
+	w.Hook = nil
+	bo := &bulkOut{seqs: pg.SeqPositions()}
+	var drawn map[pgsim.SeqKey]int64
+	if trk != nil {
+		trk.mu.Lock()
+		bo.perCall = append([]int(nil), trk.perCall...)
+		concurrent, fired := trk.concurrent, trk.fired
+		if fired {
+			drawn = seqDelta(trk.entrySeq, trk.faultSeq)
+			fc := *f
+			fc.SQL = trk.firedSQL
+			bc.Fault, f = &fc, &fc
+		}
+		trk.mu.Unlock()
+		if concurrent {
+			c.r.EngineError(fmt.Sprintf("bulk %v %s: two elements were processed at the same time", bc.names(), bc.Opts))
+			return nil
+		}
+		if f != nil && !fired {
+			c.r.EngineError(fmt.Sprintf("bulk %v %s: driver call %d of element %d was never issued (the undisturbed run issued it: nondeterministic statement stream)", bc.names(), bc.Opts, f.At, f.Elem))
+			return nil
+		}
+	}
+	if f != nil {
+		c.faultRuns.Add(1)
+	} else {
+		c.bulks.Add(1)
+	}
+	// outcome names of fault runs are kept apart from those of undisturbed bulks
+	count := func(name string) {
+		if f != nil {
+			name = "deadlock:" + name
+		}
+		c.outcomes.add(name, 1)
+	}
 
 	if mode == "atomic+parallel" {
 		// invalid option combination: the request is refused as a whole; it must not have any effect
@@ -405,26 +533,33 @@ func (c *c32) check(ctx context.Context, start *pgsim.DB, startObs string, bc bu
 			c.viol(bc, "refused-with-effect", "the bulk was refused (%v) but the database changed", out.err)
 		}
 		c.outcomes.add("atomic+parallel:refused", 1)
-		return
+		return nil
 	}
 	if out.err != nil {
 		if strings.Contains(out.err.Error(), "pgsim:") {
 			c.r.EngineError(fmt.Sprintf("bulk %v %s: %v", bc.names(), bc.Opts, out.err))
-			return
+			return nil
 		}
 		c.viol(bc, "no-results", "the bulk returned no per-element results: %v (%s)", out.err, out.raw)
-		return
+		return nil
 	}
-	for _, res := range out.results {
+	for i, res := range out.results {
 		if strings.Contains(res.ErrorDescription, "pgsim:") {
+			if f != nil && pg.OpenTransactions() > 0 && strings.Contains(res.ErrorDescription, "would block") {
+				// not a defect of the machinery: the bulk itself left a transaction open
+				// (nothing else runs on this database) and element i waits for its locks;
+				// on a server that wait never ends and the bulk returns nothing
+				c.viol(bc, "element-blocked-by-transaction-left-open", "element %d (%s) waits for a lock held by a transaction that an earlier element of the same bulk left open after its deadlock retry (%d transaction(s) still open when the bulk returned): %s", i, bc.Elems[min(i, n-1)].Name, pg.OpenTransactions(), res.ErrorDescription)
+				return nil
+			}
 			c.r.EngineError(fmt.Sprintf("bulk %v %s: %s", bc.names(), bc.Opts, res.ErrorDescription))
-			return
+			return nil
 		}
 	}
 	// exactly one result per element
 	if len(out.results) != n {
 		c.viol(bc, "result-count", "%d results for %d elements: %s", len(out.results), n, out.raw)
-		return
+		return nil
 	}
 	anyErr := false
 	for _, res := range out.results {
@@ -432,14 +567,34 @@ func (c *c32) check(ctx context.Context, start *pgsim.DB, startObs string, bc bu
 			anyErr = true
 		}
 	}
-	if (out.status == http.StatusBadRequest) != anyErr {
+	if f == nil && (out.status == http.StatusBadRequest) != anyErr {
 		c.notes.add(fmt.Sprintf("http status %d with anyError=%v", out.status, anyErr), 1)
 	}
 	if mode == "parallel" {
 		// free-running worker pool: only the structural claim is checked
 		c.outcomes.add("parallel:one-result-per-element", 1)
-		return
+		return bo
 	}
+
+	ref, err := refFor(drawn)
+	if err != nil {
+		c.r.EngineError(fmt.Sprintf("bulk %v %s: reference: %v", bc.names(), bc.Opts, err))
+		return nil
+	}
+	solo, soloTx, startObs := ref.solo, ref.soloTx, ref.startObs
+	// fault runs: victim = index of the element that met the deadlock; exact = the reference
+	// holds for the victim's ids and for everything after it
+	victim, exact := -1, true
+	if f != nil {
+		victim, exact = f.Elem, ref.exact
+		if ref.seqsMustMatch != nil {
+			exact = len(seqDelta(ref.seqsMustMatch, bo.seqs)) == 0
+		}
+	}
+	// surfaced: the deadlock was not absorbed, the victim reports an error although the same
+	// request alone succeeds. That is what any request does when the database refuses a
+	// statement; the bulk must then treat it as a failed element.
+	surfaced := false
 
 	// sequential and atomic: results are in element order
 	firstFail := -1
@@ -452,7 +607,7 @@ func (c *c32) check(ctx context.Context, start *pgsim.DB, startObs string, bc bu
 		if !executed {
 			if !failed {
 				c.viol(bc, "applied-after-failure", "element %d (%s) reports success although element %d failed and continueOnFailure is off", i, bc.Elems[i].Name, firstFail)
-				return
+				return nil
 			}
 			continue
 		}
@@ -460,27 +615,52 @@ func (c *c32) check(ctx context.Context, start *pgsim.DB, startObs string, bc bu
 		if mode == "atomic" {
 			s = soloTx[i]
 		}
-		switch {
-		case !failed && res.ResponseType != bc.Elems[i].Act:
+		if !failed && res.ResponseType != bc.Elems[i].Act {
 			c.viol(bc, "result-order", "result %d has responseType %s, element %d is %s", i, res.ResponseType, i, bc.Elems[i].Act)
-			return
+			return nil
+		}
+		if i == victim && failed && s.OK {
+			surfaced = true
+			continue
+		}
+		if victim >= 0 && i > victim && (surfaced || !exact) {
+			continue // what follows a victim that failed, or whose lost ids the reference does not have: structural claims only
+		}
+		cmpData := !(i == victim && !exact)
+		switch {
 		case failed && s.OK:
 			if mode == "atomic" {
 				// all-or-none is still respected; reported, not judged
 				c.notes.add(fmt.Sprintf("atomic bulk on %s ledger: element %s fails in the bulk (%s) but succeeds as a separate request", bc.State, bc.Elems[i].Name, res.ErrorCode), 1)
 			} else {
 				c.viol(bc, "element-fails-in-bulk-succeeds-alone", "element %d (%s) failed in the bulk (%s: %s) but the same request alone, after the same prefix, succeeds", i, bc.Elems[i].Name, res.ErrorCode, res.ErrorDescription)
-				return
+				return nil
 			}
 		case !failed && !s.OK:
 			c.viol(bc, "result-differs-from-solo", "element %d (%s) succeeded in the bulk but the same request alone, after the same prefix, fails (%s)", i, bc.Elems[i].Name, s.Class)
-			return
-		case !failed:
+			return nil
+		case !failed && cmpData:
 			got := normJSON(res.Data)
 			if got != s.Data || res.LogID != s.LogID {
 				c.viol(bc, "result-differs-from-solo", "element %d (%s): bulk result logID=%d data=%s; the same request alone returns logID=%d data=%s", i, bc.Elems[i].Name, res.LogID, got, s.LogID, s.Data)
-				return
+				return nil
 			}
+		}
+	}
+	if f != nil {
+		kind := "absorbed"
+		switch {
+		case surfaced:
+			kind = "surfaced"
+		case out.results[victim].ResponseType == "ERROR":
+			kind = "victim-fails-alone-too"
+		case !anyErr && victim < n-1:
+			c.outcomes.add("deadlock:"+mode+":absorbed-then-later-elements-applied", 1)
+		}
+		c.outcomes.add("deadlock:"+mode+":"+kind, 1)
+		c.faultStmts.add(mode+": "+stmtKind(f.SQL)+": "+kind, 1)
+		if !exact {
+			c.outcomes.add("deadlock:"+mode+":structural-only-from-victim-on", 1)
 		}
 	}
 
@@ -489,7 +669,7 @@ func (c *c32) check(ctx context.Context, start *pgsim.DB, startObs string, bc bu
 	obs, err := observe(ctx, ctrl)
 	if err != nil {
 		c.r.EngineError(fmt.Sprintf("bulk %v %s: %v", bc.names(), bc.Opts, err))
-		return
+		return nil
 	}
 	soloAfter := func(i int) string {
 		if i < 0 {
@@ -501,20 +681,24 @@ func (c *c32) check(ctx context.Context, start *pgsim.DB, startObs string, bc bu
 	case mode == "atomic" && anyErr:
 		if after != before {
 			c.viol(bc, "partial-apply", "an element failed but the database changed (atomic bulks apply all elements or none)")
-			return
+			return nil
 		}
 		if obs != startObs {
 			c.viol(bc, "partial-apply", "an element failed but the ledger reads differently afterwards")
-			return
+			return nil
 		}
-		c.outcomes.add("atomic:rolled-back", 1)
+		count("atomic:rolled-back")
 	case mode == "atomic":
-		if obs != soloAfter(n-1) {
-			c.viol(bc, "not-all-applied", "no element failed but the ledger differs from applying every element in order:\n bulk: %s\n solo: %s", obs, soloAfter(n-1))
-			return
+		want := soloAfter(n - 1)
+		if ref.allApplied != "" {
+			want = ref.allApplied
 		}
-		c.outcomes.add("atomic:all-applied", 1)
-		if bc.State == "pristine" {
+		if exact && obs != want {
+			c.viol(bc, "not-all-applied", "no element failed but the ledger differs from applying every element in order:\n bulk: %s\n solo: %s", obs, want)
+			return nil
+		}
+		count("atomic:all-applied")
+		if bc.State == "pristine" && f == nil {
 			if l, err := w.Sys.GetLedger(ctx, "l1"); err == nil && l.State == ledger.StateInitializing {
 				c.notes.add("atomic bulk committed on a pristine ledger leaves _system.ledgers.state = initializing", 1)
 			}
@@ -524,27 +708,63 @@ func (c *c32) check(ctx context.Context, start *pgsim.DB, startObs string, bc bu
 		if firstFail >= 0 && !bc.Opts.Continue {
 			last = firstFail
 		}
-		if obs != soloAfter(last) {
+		judged := true
+		switch {
+		case surfaced && bc.Opts.Continue:
+			judged = false // later elements ran without the victim's effects: no reference
+		case surfaced:
+			last = victim - 1 // the victim is the first failure; it failed, so the ledger is as before it
+		case !exact:
+			judged = false
+		}
+		if judged && obs != soloAfter(last) {
 			kind := "effects-differ-from-in-order-application"
-			if firstFail >= 0 && !bc.Opts.Continue && last+1 < n && obs == soloAfter(n-1) {
+			if surfaced {
+				res := out.results[victim]
+				c.viol(bc, "failed-element-has-effects", "element %d (%s) met the deadlock and reports an error (%s: %s), so the ledger must read as before that element (the %d element(s) before it applied in order as separate requests):\n bulk: %s\n solo: %s", victim, bc.Elems[victim].Name, res.ErrorCode, res.ErrorDescription, victim, obs, soloAfter(last))
+				return nil
+			} else if firstFail >= 0 && !bc.Opts.Continue && last+1 < n && obs == soloAfter(n-1) {
 				kind = "applied-after-failure"
 			}
 			c.viol(bc, kind, "the ledger differs from applying elements 0..%d in order as separate requests:\n bulk: %s\n solo: %s", last, obs, soloAfter(last))
-			return
+			return nil
 		}
 		switch {
 		case firstFail < 0:
-			c.outcomes.add("sequential:all-applied", 1)
+			count("sequential:all-applied")
 		case bc.Opts.Continue:
-			c.outcomes.add("sequential:continued-after-failure", 1)
+			count("sequential:continued-after-failure")
 		case firstFail == n-1:
-			c.outcomes.add("sequential:failed-at-last", 1)
+			count("sequential:failed-at-last")
 		default:
-			c.outcomes.add("sequential:stopped-after-failure", 1)
+			count("sequential:stopped-after-failure")
 		}
 	}
-	if firstFail >= 0 && firstFail < n-1 {
+	if f == nil && firstFail >= 0 && firstFail < n-1 {
 		c.nontriv.Add(1)
+	}
+	return bo
+}
+
+// faults repeats one sequential / atomic bulk with one deadlock (SQLSTATE 40P01) injected at
+// every driver call of every element of the undisturbed run und.
+func (c *c32) faults(ctx context.Context, start *pgsim.DB, bc bulkCase, fr *faultRefs, und *bulkOut) {
+	mode := bc.Opts.mode()
+	for call, calls := range und.perCall {
+		e := elemOfCall(bc.Elems, call)
+		if e < 0 {
+			c.r.EngineError(fmt.Sprintf("bulk %v %s: %d controller write calls for %d valid elements", bc.names(), bc.Opts, len(und.perCall), callOfElem(bc.Elems, len(bc.Elems))))
+			return
+		}
+		for at := 1; at <= calls; at++ {
+			if c.r.Expired() || c.r.HasEngineError() {
+				return
+			}
+			fbc := bc
+			fbc.Fault = &faultSpec{Elem: e, At: at}
+			c.check(ctx, start, fbc, func(drawn map[pgsim.SeqKey]int64) (*c32Ref, error) { return fr.get(mode, e, drawn) })
+			c.faultPositions.Add(1)
+		}
 	}
 }
 
@@ -689,7 +909,7 @@ func (t *stdoutTap) close() {
 func runC32() int {
 	r := ev.Start("C32", ev.LevelExploration, 150*time.Second, 20*time.Minute)
 	ctx := context.Background()
-	c := &c32{r: r, outcomes: newCounter(), notes: newCounter(), samples: ev.NewSamples(8)}
+	c := &c32{r: r, outcomes: newCounter(), notes: newCounter(), faultStmts: newCounter(), samples: ev.NewSamples(8)}
 
 	states, order, stErr := c32States(ctx)
 	if states == nil {
@@ -739,31 +959,60 @@ func runC32() int {
 		{Atomic: true, Parallel: true},
 	}
 	type job struct {
-		state string
-		elems []bulkElem
+		state  string
+		elems  []bulkElem
+		faults bool // repeated with a deadlock victim
+	}
+	// fault dimension: every bulk of length <= 2, and the bulks of length 3 over the first
+	// c32FaultMenu3 elements of the menu
+	faultMenu3 := map[string]bool{}
+	for _, e := range menu[:ev.Pick(r, c32CoreMenu, c32FaultMenu3Thorough)] {
+		faultMenu3[e.Name] = true
 	}
 	var jobs []job
+	faultBulks := 0
 	for _, b := range bulks {
+		withFaults := true
+		if len(b) > 2 {
+			for _, e := range b {
+				withFaults = withFaults && faultMenu3[e.Name]
+			}
+		}
+		if withFaults {
+			faultBulks++
+		}
 		for _, s := range order {
-			jobs = append(jobs, job{s, b})
+			jobs = append(jobs, job{s, b, withFaults})
 		}
 	}
 	tap := tapStdout()
 	complete := phasedFor(r, len(jobs), func(i int) int { return len(jobs[i].elems) }, func(i int) {
 		j := jobs[i]
-		solo, err := soloRun(ctx, states[j.state], j.elems)
+		solo, err := soloRun(ctx, states[j.state], j.elems, nil)
 		if err != nil {
 			r.EngineError(fmt.Sprintf("solo run %s: %v", j.state, err))
 			return
 		}
-		soloTx, err := soloRunInTx(ctx, states[j.state], j.elems)
+		soloTx, _, err := soloRunInTx(ctx, states[j.state], j.elems, nil, false)
 		if err != nil {
 			r.EngineError(fmt.Sprintf("solo run in one transaction %s: %v", j.state, err))
 			return
 		}
-		for _, o := range optsList {
-			bc := bulkCase{State: j.state, Elems: j.elems, Opts: o}
-			c.check(ctx, states[j.state], startObs[j.state], bc, solo, soloTx)
+		base := &c32Ref{startObs: startObs[j.state], solo: solo, soloTx: soloTx, exact: true}
+		baseRef := func(map[pgsim.SeqKey]int64) (*c32Ref, error) { return base, nil }
+		unds := make([]*bulkOut, len(optsList))
+		for k, o := range optsList {
+			unds[k] = c.check(ctx, states[j.state], bulkCase{State: j.state, Elems: j.elems, Opts: o}, baseRef)
+		}
+		// fault dimension: the same bulk with one element a deadlock victim, at every driver
+		// call of every element (after all undisturbed variants of this bulk)
+		for k, o := range optsList {
+			if !j.faults || unds[k] == nil || !c32FaultOpts(r, o) {
+				continue
+			}
+			fr := &faultRefs{ctx: ctx, start: states[j.state], elems: j.elems, state: j.state, startObs: startObs[j.state],
+				solo: solo, soloTx: soloTx, undSeqs: unds[k].seqs, cache: map[string]*c32Ref{}}
+			c.faults(ctx, states[j.state], bulkCase{State: j.state, Elems: j.elems, Opts: o}, fr, unds[k])
 		}
 		if i%211 == 0 {
 			var cls []string
@@ -810,6 +1059,19 @@ func runC32() int {
 				r.EngineError("vacuous: outcome " + need + " never occurred")
 			}
 		}
+		// the fault dimension must have been exercised: deadlock victims that the ledger retried
+		// in the middle of a bulk (followed by further elements), victims whose error reached
+		// the client, rolled back and committed atomic bulks with a victim
+		for _, need := range []string{"deadlock:atomic:absorbed", "deadlock:atomic:absorbed-then-later-elements-applied", "deadlock:atomic:surfaced",
+			"deadlock:atomic:rolled-back", "deadlock:atomic:all-applied",
+			"deadlock:sequential:absorbed", "deadlock:sequential:absorbed-then-later-elements-applied", "deadlock:sequential:all-applied"} {
+			if oc[need] == 0 {
+				r.EngineError("vacuous: fault dimension: outcome " + need + " never occurred")
+			}
+		}
+		if c.faultRuns.Load() == 0 || c.faultRuns.Load() != c.faultPositions.Load() {
+			r.EngineError(fmt.Sprintf("vacuous: fault dimension: %d fault positions enumerated, %d fault runs judged", c.faultPositions.Load(), c.faultRuns.Load()))
+		}
 	}
 	for k, v := range c.notes.snapshot() {
 		r.Note(fmt.Sprintf("%s (x%d)", k, v))
@@ -823,21 +1085,26 @@ func runC32() int {
 		"evaluations":         c.bulks.Load(),
 		"distinct_nontrivial": c.nontriv.Load(),
 		"bulks_in_space":      len(bulks),
+		"bulks_with_faults":   faultBulks,
 		"start_states":        order,
 		"option_sets":         len(optsList),
 		"element_menu":        bulkCase{Elems: menu}.names(),
 		"outcomes":            oc,
+		"fault_runs":          c.faultRuns.Load(),
+		"fault_statements":    c.faultStmts.snapshot(),
 		"samples":             c.samples.List(),
 		"exhaustive":          complete,
 		"rule": "evaluation = one bulk posted through the real JSON bulk handler and Bulker over the real ledger controller stack on a clone of a pgsim start state; space = every bulk of length<=2 over the 16-element menu (create transaction by postings/script/with reference/with idempotency key, add and delete metadata on account and transaction, revert; failing elements: insufficient funds, unknown transaction, already reverted, reference conflict, invalid postings, invalid target type) plus every bulk of length 3 over the " +
 			"6-element core menu (quick) / the full menu (thorough), x start state {pristine (initializing), in-use, just imported} x {sequential, sequential+continueOnFailure, atomic, atomic+continueOnFailure, parallel, parallel+continueOnFailure, atomic+parallel}; " +
 			"oracle: one result per element; sequential and atomic: result i belongs to element i and equals (data and log id, clock fields removed) what the same request returns when the elements are applied one by one through the plain controller on a clone (differential: as separate requests for sequential bulks, as separate calls inside one Controller.BeginTX transaction for atomic bulks); atomic: any failure => database dump unchanged, no failure => ledger reads as after applying all; sequential: ledger reads as after applying elements up to the first failure (all, with continueOnFailure), later elements report errors; " +
-			"parallel: ONLY 'exactly one result per element' is checked (elements run on a free-running worker pool, their interleaving is not explored here); atomic+parallel must be refused without effect. distinct_nontrivial = sequential/atomic bulks with a failing element followed by at least one more element",
+			"parallel: ONLY 'exactly one result per element' is checked (elements run on a free-running worker pool, their interleaving is not explored here); atomic+parallel must be refused without effect. distinct_nontrivial = sequential/atomic bulks with a failing element followed by at least one more element. " +
+			"FAULT DIMENSION (fault_runs, outcomes deadlock:*, fault_statements = mode: refused statement: what became of the victim): every sequential and atomic bulk of length<=2 of the space and every one of length 3 over the first 6 (quick) / 9 (thorough) elements of the menu (bulks_with_faults; quick: without continueOnFailure; thorough: with and without) is repeated once per statement (exec/query driver call; SAVEPOINT / RELEASE / ROLLBACK TO excepted: they never wait for a lock, so they are never deadlock victims) that the controller issues while it serves an element of the undisturbed bulk, that statement being refused once with SQLSTATE 40P01 (the element is a deadlock victim on its first attempt; the ledger retries such a request); same oracle, the reference being the same requests on their own with the sequence values the victim's first attempt had drawn (measured at the driver boundary) drawn by an unrelated session just before the victim's request: a victim the ledger retried must leave the bulk exactly as undisturbed (results, log ids, ledger), a victim whose error reaches the client is a failed element (atomic: nothing applied; sequential: the ledger as before it, no later element unless continueOnFailure); sequential bulks on a still initializing ledger (sequence resynchronisation per request): the elements from the victim on are compared exactly only when the bulk leaves the sequences where the undisturbed bulk leaves them, else structurally",
 	}
 	return r.Finish(cov, []string{pgsimAssumption,
 		"clock-dependent fields (timestamp, insertedAt, updatedAt, revertedAt, log date and hash) are not compared: a bulk and separate requests execute different numbers of SQL statements",
 		"parallel bulks: only the structural claim is checked",
-		"an element that fails inside an atomic bulk although it would succeed alone does not contradict all-or-none; it is reported under observations"})
+		"an element that fails inside an atomic bulk although it would succeed alone does not contradict all-or-none; it is reported under observations",
+		"fault dimension: a deadlock is modelled as SQLSTATE 40P01 on one statement of one element's first attempt with the transaction aborted (no second session is involved, so no lock is actually contended); an element whose deadlock error reaches the client is treated as a failed element, the property does not promise a retry"})
 }
 
 func init() { reg.Register("C32", runC32) }
